@@ -653,3 +653,21 @@ Qed.
 
 Lemma sample_inferred : infer_schema_from_list sample_rows = Ok (TStruct sample_fs).
 Proof. vm_compute. reflexivity. Qed.
+
+(* with the (inferable) schema given explicitly there is no converter in the path: verification passes and the
+   rows come back, whatever the placement of the nulls *)
+Theorem create_with_schema_id local fs rows :
+  inferable (TStruct fs) -> Forall (is_row_of (TStruct fs)) rows ->
+  create_with_schema local (TStruct fs) rows = Ok (map (tz_local local) rows).
+Proof.
+  intros Hinf Hrows. unfold create_with_schema.
+  rewrite each_ok.
+  2:{ eapply Forall_impl; [|exact Hrows]. intros r [_ Hr]. apply verify_ivalue; auto. }
+  cbn [bind].
+  rewrite (mapM_id _ (tz_local local)).
+  2:{ eapply Forall_impl; [|exact Hrows]. intros r [_ Hr]. now apply to_internal_ivalue. }
+  cbn [bind].
+  rewrite (mapM_id _ (fun r => r)); [now rewrite map_id|].
+  rewrite Forall_forall. intros r' Hr'. apply in_map_iff in Hr'. destruct Hr' as (r & <- & Hr).
+  rewrite Forall_forall in Hrows. destruct (row_shape fs r (Hrows r Hr)) as (vals & ->). reflexivity.
+Qed.
